@@ -108,3 +108,47 @@ def run(F, R):
                     R.check(("boundary=%s" % boundary) in s and s.startswith("multipart/mixed"), "R26.2", "integration-content-type:" + b.defp.split("::")[0], b.where(), s,
                             "content-type literal %r does not announce boundary %r" % (s, boundary))
     R.floor("R26.2", "integration content-type literals", n, 3)
+
+    R.rule("R26.3", "every response of the source is framed, and the body ends only with the source: (a) the source stream is polled at exactly one site — the "
+                    "select's response arm (a second `input.next()` elsewhere, e.g. a peek in the heartbeat arm, consumes a response that is then never written); "
+                    "(b) the part loop is left only on the arm where that poll returned None (no break on the content of a response)")
+    from common import sccs, loop_exit_edges
+    polls = [c for c in co.calls() if (c.declared or "").endswith("StreamExt::next") or re.search(r"stream::.*::next$", c.callee or "")]
+    src_polls = []
+    for c in polls:
+        o, passed = trace(co, c.args[0])
+        if any(k == "upvar" and "input" in str(x) for k, x in o) or any(k == "field" and any("input" in str(f) for f in x) for k, x in o) or \
+                (c.args[0][0] in ("c", "m") and (co.local_name(c.args[0][1][0]) or "") == "input"):
+            src_polls.append(c)
+    if not src_polls:
+        src_polls = polls
+    R.check(len(src_polls) == 1, "R26.3", "source-polled-at-one-site", co.where(), "one input.next() site",
+            "the source stream is polled at %d sites: a response taken anywhere but in the select's response arm is dropped from the body" % len(src_polls))
+    nows = [c for c in co.calls() if c.callee and re.search(r"now_or_never$|poll_immediate$|::try_next$", c.callee)]
+    R.check(not nows, "R26.3", "no-opportunistic-poll-of-the-source", co.where(), "no now_or_never / poll_immediate", "the generator polls a stream opportunistically (%s)" % [c.callee.split("::")[-1] for c in nows])
+    comp = [c_ for c_ in sccs(co) if src_polls and src_polls[0].bb in c_]
+    okb = False
+    if comp:
+        comp = comp[0]
+        none_src = set()
+        for (sbb, place, adt, arms, other, vmap) in co.enum_switches(r"core::option::Option$"):
+            if sbb in comp and arms.get("None") is not None:
+                o, passed = trace(co, co.term(sbb)[1])
+                ty = co.locals[place[0]] if place else ""
+                if any(p in src_polls or p.bb == src_polls[0].bb for p in passed) or any(k == "call" and x in src_polls for k, x in o) or \
+                        ("Option<" in ty and "Response" in ty):
+                    # the item the select! hands to the response arm: Option<Response> of the source
+                    none_src.add(sbb)
+        # exits of the loop towards the closing delimiter (not generator suspension / drop edges): the target must reach the E site
+        e_sites = [c.bb for c, lab in sites if lab == "E"]
+        bad = []
+        for s_, d_ in loop_exit_edges(co, comp):
+            if s_ in none_src:
+                continue
+            if any(e in co.reachable(d_) or e == d_ for e in e_sites):
+                bad.append(s_)
+        okb = bool(none_src) and not bad
+        R.check(okb, "R26.3", "part-loop-ends-only-with-the-source", co.where(), "left only on the None arm of the source poll",
+                "the part loop can also be left from bb%s: the closing delimiter is written while the source may still produce responses (they are lost)" % sorted(set(bad)))
+    else:
+        R.violation("R26.3", "part-loop:not-found", co.where(), "the loop around the source poll was not found")
